@@ -70,7 +70,8 @@ def _simplify_constant_power(base, exponent):
             and exponent.operands[0] > 0:
         return Expression(INTEGER, [base.operands[0]**exponent.operands[0]])
 
-    if base.operator == POWER:  # multiply constant powers
+    if base.operator == POWER and exponent.operator == INTEGER:
+        # multiply powers: (b^m)^n = b^(m*n) holds for integer n only
         base_base = base.operands[0]
         base_exponent = base.operands[1]
         mult_exp = Expression(MULTIPLICATION, [base_exponent, exponent])
